@@ -485,8 +485,14 @@ def lattice(tier, seed):
                     c["uninit"] = "nan"
                     cases.append(c)
     mixed = [list(t) for t in itertools.permutations(ALPHABET, 2)]
-    if not quick:
+    # every ORDER of a triple, in particular the two 3-cycles: a permutation applied instead of its inverse when a
+    # size-sorted batch is restored is invisible on self-inverse orders (identity, single swaps, reversal)
+    if quick:
+        for tri in (("C2H2", "H2O", "CH4"), ("H2CO", "HF", "NH4+")):
+            mixed += [list(t) for t in itertools.permutations(tri, 3)]
+    else:
         mixed += [list(t) for t in itertools.permutations(ALPHABET, 3) if ALPHABET.index(t[0]) < ALPHABET.index(t[2])]
+        mixed += [list(t) for t in itertools.permutations(ALPHABET[:6], 3) if not ALPHABET.index(t[0]) < ALPHABET.index(t[2])]
     for bt in mixed:
         specs = [_spec(n) for n in bt]
         for w, pat in ((0, "zero"), (1, "far")):
